@@ -82,17 +82,16 @@ def clearBits (x m : Nat) : Nat := x - (x &&& m)
 /-! ## v4 varint (`_encode_varint`, `_decode_varint`, stream reader) -/
 
 /-- `_encode_varint`: little-endian base-128, continuation bit on all but the last byte.
-(`value == 0` gives `b"\x00"`, which is the `n < 128` branch.)  Written with `%` and `/` for
-`& 0x7F` and `>> 7`; the three constants are read from the source. -/
-def encodeVarint (n : Nat) : Bytes :=
-  if n / 2 ^ varintEncShift = 0 ∨ 2 ^ varintEncShift ≤ 1 then [UInt8.ofNat (n % (varintEncMask + 1))]
-  else UInt8.ofNat (n % (varintEncMask + 1) + varintEncCont) :: encodeVarint (n / 2 ^ varintEncShift)
-termination_by n
-decreasing_by
-  rename_i h
-  have h1 : ¬ (n / 2 ^ varintEncShift = 0) := fun h' => h (Or.inl h')
-  have h2 : ¬ (2 ^ varintEncShift ≤ 1) := fun h' => h (Or.inr h')
-  exact Nat.div_lt_self (Nat.pos_of_ne_zero (fun h0 => h1 (by simp [h0]))) (Nat.lt_of_not_le h2)
+(`value == 0` gives `b"\x00"`: the first branch.)  Written with `%` and `/` for `& 0x7F` and `>> 7`;
+the three constants are read from the source.  Structural on a fuel argument (so that `decide` can
+evaluate it); `fuel = n` always suffices because every step divides by at least 2. -/
+def encodeVarintAux : Nat → Nat → Bytes
+  | 0, n => [UInt8.ofNat (n % (varintEncMask + 1))]
+  | fuel + 1, n =>
+    if n / 2 ^ varintEncShift = 0 then [UInt8.ofNat (n % (varintEncMask + 1))]
+    else UInt8.ofNat (n % (varintEncMask + 1) + varintEncCont) :: encodeVarintAux fuel (n / 2 ^ varintEncShift)
+
+def encodeVarint (n : Nat) : Bytes := encodeVarintAux n n
 
 /-- The varint loop of `_decompress_path_from_stream`: one byte at a time, `ValueError` at EOF. -/
 def readVarintAux (shift acc : Nat) : Bytes → R (Nat × Bytes)
